@@ -247,4 +247,26 @@ def run (cfg : Cfg) (s : Store) (t0 : Nat) : List Op → Store × List Out
     let (s'', os) := run cfg s' (t0 + 1) ops
     (s'', o :: os)
 
+/-! ### over a backing store (inmem.WithBackingStore) -/
+
+def Op.isWrite : Op → Bool
+  | .create .. => true | .update .. => true | .destroy .. => true | _ => false
+
+/-- is this the outcome of a write that went through? -/
+def Out.isWrite : Out → Bool
+  | .wrote _ => true
+  | .ok => true
+  | _ => false
+
+/-- a store operation over a backing store: the collection calls the backing store after its own
+    checks and BEFORE it touches its memory (collection.go Create :161 / Update :214 / Destroy :255
+    precede `collection.storage[...] =` / `delete`; regenerated as `Gen.Store.storeBeforeMemory`);
+    when the backing store rejects the call the operation fails with that error and nothing else
+    happens. `reject`: the backing store rejects the call this operation makes, if it makes one.
+    Fail closed: with another order the memory write has already happened. -/
+def stepBS (cfg : Cfg) (reject : Bool) (s : Store) (now : Nat) (op : Op) : Store × Out :=
+  if reject && op.isWrite && (step cfg s now op).2.isWrite then
+    ((if Gen.Store.storeBeforeMemory then s else (step cfg s now op).1), .err { ctor := .backing, res := none })
+  else step cfg s now op
+
 end Cosi
